@@ -416,7 +416,9 @@ class Runner:
 # ---------------------------------------------------------------------------
 
 WS = [" ", "\t", "\n", "\r\n", "\r", "  ", "\n\n", " ", "\x85", " ", " ", "\x0b", "\x0c",
-      "　", "﻿", "é", "日本", "😀", "}", "{", "%", "#", "'", '"']
+      "　", "﻿", "é", "日本", "😀", "}", "{", "%", "#", "'", '"',
+      # names and text in decomposed / compatibility forms (NFC or NFKC would rewrite them)
+      "e\u0301", "A\u030a", "\u2126", "\u212b", "\ufb01", "m\u00b2", "\u1e9b\u0323", "\uff21"]
 COMMENTS = ["{# c #}", "{#- c -#}", "{## a # b ##}", "{#\n multi\n line\n#}", "{% # inline %}",
             "{%- # x\n  # y -%}", "{% comment %}c{% endcomment %}", "{%- comment -%} {{ x }} {%- endcomment -%}",
             "{% comment %}{% raw %}{% endcomment %}{% endraw %}{% endcomment %}", "{#~ c +#}", "{###  ###}",
@@ -432,7 +434,9 @@ FRAGS = [
     "{% include 'p' with a as b, k: v %}", "{% render 'p' for xs as x %}", "{{ 1.5e3 }}{{ -7 }}{{ 1e-2 }}",
     "{{ a[-1] }}", "{{ a[ 'x' ] . b }}", "{{ nil }}{{ true }}{{ empty }}", "{% with a: 1, b: 'two' %}{% endwith %}",
     "{{ 'é😀\\u00e9\\n' }}", "{{ a <> b }}{{ a >= b }}", "{{ a.1 }}", "{{ a.b.0.c[1].2 | f: x.0 }}", "{% if a[b.1].0 == c.2 %}",
-    "{% for i in a.0 limit: b.1 %}", "{{ a[0].1['k'].2 }}", "{% translate %}Hi{% plural %}His{% endtranslate %}",
+    "{% for i in a.0 limit: b.1 %}", "{{ a[0].1['k'].2 }}",
+    "{{ cafe\u0301 }}", "{% assign e\u0301te\u0301 = cafe\u0301.cre\u0300me | fi\u0301ltre: cle\u0301: 1 %}",
+    "{{ \u2126.\u212b['\ufb01'] }}", "{% for e\u0301 in \uff21\uff22 %}", "{{ x | map: e\u0301 => e\u0301.m\u00b2 }}", "{% translate %}Hi{% plural %}His{% endtranslate %}",
 ]
 
 
